@@ -1,0 +1,35 @@
+//go:build verif
+
+package memview
+
+import (
+	"mltwist/internal/consoleui"
+	"mltwist/internal/consoleui/internal/view"
+	"mltwist/internal/state/memory"
+)
+
+// VerifSuicView gives the verification harness (build tag verif) access to the
+// height logic of the unexported memoryView.
+type VerifSuicView struct{ v *memoryView }
+
+// VerifSuicNewMode creates the memory mode exactly as New does and returns it
+// together with a handle of its view.
+func VerifSuicNewMode(mem memory.Memory) (consoleui.Mode, VerifSuicView) {
+	m := New(mem)
+	return m, VerifSuicView{v: m.view}
+}
+
+// View returns the view itself.
+func (w VerifSuicView) View() view.View { return w.v }
+
+// Rows returns the number of rows (memory lines) of the view.
+func (w VerifSuicView) Rows() int { return len(w.v.lines) }
+
+// HasCursor tells if the view has a cursor (it has none without rows).
+func (w VerifSuicView) HasCursor() bool { return w.v.c != nil }
+
+// Cursor returns the cursor value (HasCursor must hold).
+func (w VerifSuicView) Cursor() int { return w.v.c.Value() }
+
+// SetCursor moves the cursor (HasCursor must hold).
+func (w VerifSuicView) SetCursor(i int) error { return w.v.c.Set(i) }
